@@ -51,8 +51,11 @@ def sh(cmd, cwd=None, timeout=None, env=None, input=None):
 
 class Lock:
     def __init__(self, name):
-        os.makedirs(BUILD, exist_ok=True)
-        self.path = os.path.join(BUILD, "lock-" + name)
+        # locks that protect /verif/lean (shared by every run, whatever VERIF_BUILD_DIR says) live under /verif/.build;
+        # locks of a GEOS build tree live in that tree's build dir
+        base = os.path.join(ROOT, ".build") if name.startswith("lake") else BUILD
+        os.makedirs(base, exist_ok=True)
+        self.path = os.path.join(base, "lock-" + name)
 
     def __enter__(self):
         self.f = open(self.path, "w")
